@@ -10,6 +10,7 @@ GROUPS = [[(2, 1), (1, 2), (2, 3)], [(1, 1), (4, -1), (1, 5)], [(7, 1)], [],
           # the same sub-group (key 4, group 1) held by two different parents
           [(4, -1)], [(4, -1), (1, 1)]]
 CTX_VALS = [[], [(1, 5)], [(1, 5), (2, 6)], [(0, 0)]]                 # [(0,0)] = a nil context
+CTX_ZERO = [[(1, 0)], [(1, 0), (2, 6)]]                                # a value that is the zero value of its type
 # (keys 991..993 are distinct keys cut from one string: same address, different lengths)
 CALL_ARGS = [[], [(1, 9)], [(2, 8), (1, 9), (2, 7)], [(3, -1)], [(5, 1), (3, -2), (51, 4)], [(3, 6), (3, -1), (1, 1)],
              [(3, -5), (9, 1)], [(1, -7), (2, 2)], [(4, -5), (2, -5), (1, 1)], [(1, -8), (2, -9)], [(2, -8), (1, -9), (4, -1)],
@@ -44,15 +45,18 @@ def config_nilctx(quick):
     c = config(True)
     # (context key 11 is a distinct key that prints under the name of key 1)
     c.update(max_loggers=1, setter_args={"CtxKeys": [(1, 0), (2, 0), (11, 0)], "Attrs": [(51, 3)]}, acts=["Set", "LogM"], max_list=2,
-             ctx_vals=[CTX_VALS[3], CTX_VALS[1], CTX_VALS[2], CTX_VALS[0], [(11, 6)], [(1, 5), (11, 6)]], call_args=[[], [(51, 4)], [(1, 9)]])
+             ctx_vals=[CTX_VALS[3], CTX_VALS[1], CTX_VALS[2], CTX_VALS[0], [(11, 6)], [(1, 5), (11, 6)]] + CTX_ZERO, call_args=[[], [(51, 4)], [(1, 9)]])
     return c
 
 
 def config_big(quick):
     """Loggers owning more attributes than any pooled slice starts with (128), alone and in chains, with context values."""
     c = config(True)
+    # (a list of 260 entries followed by a later entry that repeats one of its keys: the later one wins)
+    opt = lambda k, a, b=0: dict(k=k, a=a, b=b)
     c.update(max_loggers=2 if quick else 3, setter_args={"AttrsN": [(60, 100), (130, 300)], "CtxKeys": [(1, 0)]},
-             acts=["Set", "With", "LogM", "SetAttrsR"], max_list=1, ctx_vals=[CTX_VALS[1], CTX_VALS[0]], call_args=[[], [(1, 9)]])
+             opt_lists=[[], [opt("AttrsN", 260, 500), opt("Attrs", 501, 7), opt("Attrs", 759, 3)]],
+             acts=["Set", "With", "New", "LogM", "SetAttrsR"], max_list=1, ctx_vals=[CTX_VALS[1], CTX_VALS[0]], call_args=[[], [(1, 9)]])
     return c
 
 
